@@ -188,6 +188,12 @@ int main(int argc, char *argv[])
         if (proc_bytes + vss_length > (uint64_t) res) {
             continue;
         }
+        // The 16-bit interop path length includes its 2-byte prefix:
+        // anything smaller has wrapped around
+        if (addrMode == VSS_INTEROP_MODE &&
+            vss_length < AVTP_VSS_FIXED_HEADER_LEN + 2) {
+            continue;
+        }
         if (addrMode == VSS_INTEROP_MODE) {
             path.vss_interop_path.path = path_buf;
         }
